@@ -7,6 +7,7 @@ import (
 	"go/constant"
 	"go/token"
 	"go/types"
+	"sort"
 	"strings"
 
 	"golang.org/x/tools/go/packages"
@@ -348,4 +349,205 @@ func ruleYAMLSetString(c *Ctx, r *Rep) {
 	if n == 0 {
 		r.OK("yamlsetstring:none", token.NoPos, "the command builds no scalar node with Node.SetString")
 	}
+}
+
+// ---------------------------------------------------------------------------------------------------------------------
+// R-C17-rebase: what an input iterator discards from the captured input it counts, and what it counts reaches the message.
+
+func init() {
+	reg(&Rule{ID: "R-C17-rebase", Props: []string{"C17"}, Floor: 2,
+		Doc: "an input iterator that discards the front of the captured input keeps counters beside the discard (bytes or characters, lines); each counter is read again where the iterator builds its parse error, and the field of the error value it lands in is read by that error's Error method — positions reported by the decoder are absolute, the captured text is not",
+		Run: ruleC17Rebase})
+	addDecided("C17", " What an input iterator discards from the captured input is counted, and every such counter reaches the error message (R-C17-rebase).")
+}
+
+func ruleC17Rebase(c *Ctx, r *Rep) {
+	p := c.Cli
+	info := p.TypesInfo
+	n := 0
+	for _, fd := range c.Decls(p) {
+		if fd.Recv == nil || len(fd.Recv.List) == 0 || len(fd.Recv.List[0].Names) == 0 {
+			continue
+		}
+		recvObj := info.Defs[fd.Recv.List[0].Names[0]]
+		if recvObj == nil {
+			continue
+		}
+		isRecvField := func(e ast.Expr) (string, bool) {
+			sel, ok := unparen(e).(*ast.SelectorExpr)
+			if !ok {
+				return "", false
+			}
+			id, ok := sel.X.(*ast.Ident)
+			if !ok || info.Uses[id] != recvObj {
+				return "", false
+			}
+			if _, isVar := info.Uses[sel.Sel].(*types.Var); !isVar {
+				return "", false
+			}
+			return sel.Sel.Name, true
+		}
+		// the statement lists that hold a discarding call on a *bytes.Buffer
+		var blocks [][]ast.Stmt
+		walkStack(fd.Body, func(m ast.Node, stack []ast.Node) bool {
+			call, ok := m.(*ast.CallExpr)
+			if !ok {
+				return true
+			}
+			sel, ok := call.Fun.(*ast.SelectorExpr)
+			if !ok || (sel.Sel.Name != "Next" && sel.Sel.Name != "Truncate") {
+				return true
+			}
+			if t := info.TypeOf(sel.X); t == nil || !strings.HasSuffix(t.String(), "bytes.Buffer") {
+				return true
+			}
+			for i := len(stack) - 1; i >= 0; i-- {
+				if b, ok := stack[i].(*ast.BlockStmt); ok {
+					blocks = append(blocks, b.List)
+					break
+				}
+			}
+			return true
+		})
+		if len(blocks) == 0 {
+			continue
+		}
+		inBlocks := func(pos token.Pos) bool {
+			for _, b := range blocks {
+				if len(b) > 0 && b[0].Pos() <= pos && pos < b[len(b)-1].End() {
+					return true
+				}
+			}
+			return false
+		}
+		counters := map[string]token.Pos{}
+		for _, b := range blocks {
+			for _, st := range b {
+				ast.Inspect(st, func(m ast.Node) bool {
+					switch x := m.(type) {
+					case *ast.AssignStmt:
+						if x.Tok == token.ADD_ASSIGN || x.Tok == token.SUB_ASSIGN {
+							if f, ok := isRecvField(x.Lhs[0]); ok {
+								counters[f] = x.Pos()
+							}
+						}
+					case *ast.IncDecStmt:
+						if f, ok := isRecvField(x.X); ok {
+							counters[f] = x.Pos()
+						}
+					}
+					return true
+				})
+			}
+		}
+		var cnames []string
+		for f := range counters {
+			cnames = append(cnames, f)
+		}
+		sort.Strings(cnames)
+		for _, f := range cnames {
+			pos := counters[f]
+			n++
+			key := "rebase:" + declKey(fd) + ":" + f
+			// read under `err != nil`, outside the discard blocks
+			usedInError := false
+			var errField []string // fields of an error composite literal the counter is stored in
+			walkStack(fd.Body, func(m ast.Node, stack []ast.Node) bool {
+				g, ok := isRecvField(exprOf(m))
+				if !ok || g != f || inBlocks(m.Pos()) {
+					return true
+				}
+				// not the left-hand side of an assignment
+				if len(stack) > 0 {
+					if as, ok := stack[len(stack)-1].(*ast.AssignStmt); ok {
+						for _, l := range as.Lhs {
+							if l == m {
+								return true
+							}
+						}
+					}
+				}
+				under := false
+				for i := len(stack) - 1; i >= 0; i-- {
+					if ifs, ok := stack[i].(*ast.IfStmt); ok {
+						if be, ok := unparen(ifs.Cond).(*ast.BinaryExpr); ok && be.Op == token.NEQ {
+							if t := info.TypeOf(be.X); t != nil && types.Implements(t, errorIface()) {
+								under = true
+							}
+						}
+					}
+					if cl, ok := stack[i].(*ast.CompositeLit); ok {
+						t := info.TypeOf(cl)
+						if t != nil && (types.Implements(t, errorIface()) || types.Implements(types.NewPointer(t), errorIface())) {
+							if st, ok := t.Underlying().(*types.Struct); ok {
+								for k, e := range cl.Elts {
+									val := e
+									name := ""
+									if kv, ok := e.(*ast.KeyValueExpr); ok {
+										val = kv.Value
+										name = kv.Key.(*ast.Ident).Name
+									} else if k < st.NumFields() {
+										name = st.Field(k).Name()
+									}
+									if val.Pos() <= m.Pos() && m.End() <= val.End() {
+										errField = append(errField, typeName(t)+"."+name)
+									}
+								}
+							}
+						}
+					}
+				}
+				if under {
+					usedInError = true
+				}
+				return true
+			})
+			r.Check(usedInError, key, pos, "%s counts what it discards from the captured input in the field %s, and reads %s again where it reports a parse error: %v — the decoder's positions are absolute, the captured text starts after what was discarded", declKey(fd), f, f, usedInError)
+			for _, ef := range errField {
+				tn, fn, _ := strings.Cut(ef, ".")
+				ed := c.Decl(p, tn+".Error")
+				read := false
+				if ed != nil {
+					ast.Inspect(ed.Body, func(m ast.Node) bool {
+						if sel, ok := m.(*ast.SelectorExpr); ok && sel.Sel.Name == fn {
+							if id, ok := sel.X.(*ast.Ident); ok && ed.Recv != nil && len(ed.Recv.List[0].Names) > 0 && info.Uses[id] == info.Defs[ed.Recv.List[0].Names[0]] {
+								read = true
+							}
+						}
+						return true
+					})
+				}
+				r.Check(read, key+"→"+ef, pos, "the counter %s is stored in %s, which %s.Error reads: %v", f, ef, tn, read)
+			}
+		}
+	}
+	if n == 0 {
+		r.Undecided("rebase:census", token.NoPos, "no input iterator counts what it discards from a bytes.Buffer")
+	}
+}
+
+func exprOf(n ast.Node) ast.Expr {
+	if e, ok := n.(ast.Expr); ok {
+		return e
+	}
+	return nil
+}
+
+func typeName(t types.Type) string {
+	if p, ok := t.(*types.Pointer); ok {
+		t = p.Elem()
+	}
+	if nt, ok := t.(*types.Named); ok {
+		return nt.Obj().Name()
+	}
+	return t.String()
+}
+
+var errorIfaceV *types.Interface
+
+func errorIface() *types.Interface {
+	if errorIfaceV == nil {
+		errorIfaceV = types.Universe.Lookup("error").Type().Underlying().(*types.Interface)
+	}
+	return errorIfaceV
 }
